@@ -371,6 +371,13 @@ func (c *Ctx) inputRO(fn *ssa.Function, pi int, depth int, seen map[*ssa.Functio
 						c.add("violated", "C17.ro", fn, x.Pos(), "store into the parser's input bytes")
 					}
 				}
+				// retention: a slice sharing the input's bytes is put where it outlives the call (a package-level
+				// variable, or an object that is handed out) — a later call then sees whatever the caller wrote since
+				if _, isSlice := x.Val.Type().Underlying().(*types.Slice); isSlice && alias[x.Val] {
+					if where := outlives(x.Addr); where != "" {
+						c.add("violated", "C17.ro", fn, x.Pos(), "a slice of the parser's input is kept in "+where+": the bytes belong to the caller, who may overwrite them before the next call reads them back")
+					}
+				}
 			case *ssa.Call:
 				cc := &x.Call
 				if b, ok := cc.Value.(*ssa.Builtin); ok {
@@ -443,6 +450,55 @@ func isLenOfBuf(v ssa.Value, param ssa.Value) bool {
 		}
 	}
 	return false
+}
+
+// outlives: the memory addr designates may survive the call — it lies in a package-level variable, or in an
+// allocation that is returned, stored somewhere, boxed, or handed to a function outside the module. "" if it is a
+// local that stays local.
+func outlives(addr ssa.Value) string {
+	if g := rootGlobal(addr); g != nil {
+		return "package-level variable " + g.Name()
+	}
+	base := addr
+	for i := 0; i < 8; i++ {
+		switch y := base.(type) {
+		case *ssa.FieldAddr:
+			base = y.X
+			continue
+		case *ssa.IndexAddr:
+			base = y.X
+			continue
+		}
+		break
+	}
+	a, ok := base.(*ssa.Alloc)
+	if !ok {
+		return "memory reached through " + base.Name() + " (not a local of the parser)"
+	}
+	if !a.Heap {
+		return ""
+	}
+	for _, r := range *a.Referrers() {
+		switch u := r.(type) {
+		case *ssa.Return:
+			return "an object that is returned"
+		case *ssa.MakeInterface:
+			return "an object that is boxed into an interface"
+		case *ssa.Store:
+			if u.Val == ssa.Value(a) {
+				return "an object whose address is stored"
+			}
+		case *ssa.Call:
+			if f := u.Call.StaticCallee(); f == nil || !inRepo(f) {
+				for _, arg := range u.Call.Args {
+					if arg == ssa.Value(a) {
+						return "an object handed to " + u.Call.String()
+					}
+				}
+			}
+		}
+	}
+	return ""
 }
 
 // rootGlobal: addr is a package-level variable or a field/element address inside one.
